@@ -54,6 +54,12 @@ def gen_case(seed, k):
                 return ("none",)
             n = rng.randint(1, 3)
             preds = [rng.choice(CUSTOM_POOL).format(g=rng.choice(typarams or ["u16"])) for _ in range(n)]
+            if rng.random() < 0.2:
+                # predicates that differ only in a lifetime are different predicates
+                g = rng.choice(typarams or ["u16"])
+                tw = rng.choice(["{g}: Foo + {l}", "{g}: Tr<{l}>", "&{l} {g}: Foo", "{g}: Foo<&{l} u8>"])
+                preds += [tw.format(g=g, l=l) for l in rng.sample(["'static", "'q", "'r"], 2)]
+                rng.shuffle(preds)
             return ("custom", preds)
         if t == "Into":
             for e in td.tsem["Into"]["targets"]:
